@@ -42,15 +42,13 @@ Definition is2 (p : expo) : bool := match p with PFin 2 => true | _ => false end
 Definition is1inf (p : expo) : bool := match p with PFin 1 | PInf => true | _ => false end.
 Definition isinf (p : expo) : bool := match p with PInf => true | _ => false end.
 
-(* behaviours recorded as open findings: [true] = what the code does today.
-   The harness measures each flag on the finding's own replay input. *)
+(* behaviours recorded as OPEN findings: [true] = what the code does today.
+   The harness measures each flag on the finding's own replay input.
+   (Repaired and therefore no longer switches: size-0 / 0-d tensors and empty product spaces
+   now have norm 0 -- fix commits 9526a83, 6e7d07d, 3007c52.) *)
 Record quirks := {
-  q_size0_blas : bool;        (* norm/dist of a size-0 tensor raises for p = 2 (BLAS nrm2, constant weighting) *)
-  q_size0_inf : bool;         (* norm/dist of a size-0 tensor raises ValueError for p = inf (max of empty) *)
   q_unweighted_skips : bool;  (* DiscretizedSpace: tspace weighting == const 1.0 => boundary fractions skipped *)
-  q_ps2_via_inner : bool;     (* product space, p = 2: norm goes through the components' inner *)
-  q_ps_empty_raises : bool;   (* product space without components: inner/norm/dist raise *)
-  q_size0d_zero : bool        (* shape () spaces report size 0, so BLAS nrm2 is called with n = 0 *)
+  q_ps2_via_inner : bool      (* product space, p = 2: norm goes through the components' inner *)
 }.
 
 Section M.
@@ -109,17 +107,8 @@ Definition t_norm_v (w : tweight) (p : expo) (x : list T) : T :=
       | PFin q => nroot q (sumf (vmul (map (fun t => npow (nabs t) q) x) a))
       end
   end.
-(* [blas]: dtype/contiguity allow the BLAS path (float32/64, complex64/128) *)
-Definition t_norm (q : quirks) (blas : bool) (w : tweight) (p : expo) (x : list T) : outcome T :=
-  match x with
-  | [] =>
-      match w, p with
-      | WConst _, PFin 2 => if blas && q_size0_blas q then BlasErr else Ok (t_norm_v w p x)
-      | _, PInf => if q_size0_inf q then ValueErr else Ok nzero
-      | _, _ => Ok (t_norm_v w p x)
-      end
-  | _ => Ok (t_norm_v w p x)
-  end.
+(* total: an empty array has norm 0 (early return in _norm_default / _pnorm_*; all formulas give 0 on []) *)
+Definition t_norm (w : tweight) (p : expo) (x : list T) : outcome T := Ok (t_norm_v w p x).
 
 (* ConstWeighting.dist repeats the three formulas on x1 - x2; ArrayWeighting inherits
    Weighting.dist = norm(x1 - x2) *)
@@ -133,16 +122,7 @@ Definition t_dist_v (w : tweight) (p : expo) (x y : list T) : T :=
       end
   | WArr a => t_norm_v w p (vsub x y)
   end.
-Definition t_dist (q : quirks) (blas : bool) (w : tweight) (p : expo) (x y : list T) : outcome T :=
-  match vsub x y with
-  | [] =>
-      match w, p with
-      | WConst _, PFin 2 => if blas && q_size0_blas q then BlasErr else Ok (t_dist_v w p x y)
-      | _, PInf => if q_size0_inf q then ValueErr else Ok nzero
-      | _, _ => Ok (t_dist_v w p x y)
-      end
-  | _ => Ok (t_dist_v w p x y)
-  end.
+Definition t_dist (w : tweight) (p : expo) (x y : list T) : outcome T := Ok (t_dist_v w p x y).
 
 (* ------------------------------------------------------------------ *)
 (* uniform partitions: grid.uniform_grid_fromintv, partition.*          *)
@@ -204,8 +184,8 @@ Definition frac_root (p : expo) (f : T) : T :=
 (* leaves of a space tree: tensor space or uniformly discretized space *)
 Inductive lweight := LDefault | LConst (c : T) | LArr (a : list T).
 Inductive leaf :=
-| LTensor (blas zd : bool) (w : lweight) (p : expo)   (* zd: shape () (space.size reports 0) *)
-| LDiscr (blas : bool) (axes : list axis) (w : lweight) (p : expo).
+| LTensor (w : lweight) (p : expo)
+| LDiscr (axes : list axis) (w : lweight) (p : expo).
 
 Definition t_weight (w : lweight) : tweight :=
   match w with LDefault => WConst none_ | LConst c => WConst c | LArr a => WArr a end.
@@ -228,31 +208,27 @@ Definition unif_weighted (q : quirks) (axes : list axis) (w : tweight) (p : expo
 
 Definition leaf_inner (q : quirks) (lf : leaf) (x y : list T) : outcome T :=
   match lf with
-  | LTensor _ _ w p => t_inner (t_weight w) p x y
-  | LDiscr _ axes w p =>
+  | LTensor w p => t_inner (t_weight w) p x y
+  | LDiscr axes w p =>
       let tw := d_weight axes w p in
       if unif_weighted q axes tw p then t_inner tw p x y
       else t_inner tw p (scale_bdry (fun f => f) axes x) y
   end.
 Definition leaf_norm (q : quirks) (lf : leaf) (x : list T) : outcome T :=
   match lf with
-  | LTensor blas zd w p =>
-      if zd && blas && q_size0d_zero q && is2 p && is_const (t_weight w) then Ok nzero  (* nrm2(x, n=0) *)
-      else t_norm q blas (t_weight w) p x
-  | LDiscr blas axes w p =>
+  | LTensor w p => t_norm (t_weight w) p x
+  | LDiscr axes w p =>
       let tw := d_weight axes w p in
-      if unif_weighted q axes tw p then t_norm q blas tw p x
-      else t_norm q blas tw p (scale_bdry (frac_root p) axes x)
+      if unif_weighted q axes tw p then t_norm tw p x
+      else t_norm tw p (scale_bdry (frac_root p) axes x)
   end.
 Definition leaf_dist (q : quirks) (lf : leaf) (x y : list T) : outcome T :=
   match lf with
-  | LTensor blas zd w p =>
-      if zd && blas && q_size0d_zero q && is2 p && is_const (t_weight w) then Ok nzero
-      else t_dist q blas (t_weight w) p x y
-  | LDiscr blas axes w p =>
+  | LTensor w p => t_dist (t_weight w) p x y
+  | LDiscr axes w p =>
       let tw := d_weight axes w p in
-      if unif_weighted q axes tw p then t_dist q blas tw p x y
-      else t_dist q blas tw p (scale_bdry (frac_root p) axes x) (scale_bdry (frac_root p) axes y)
+      if unif_weighted q axes tw p then t_dist tw p x y
+      else t_dist tw p (scale_bdry (frac_root p) axes x) (scale_bdry (frac_root p) axes y)
   end.
 
 (* ------------------------------------------------------------------ *)
@@ -311,10 +287,7 @@ Fixpoint sp_inner (q : quirks) (s : space) (x y : elem) {struct s} : outcome T :
   | SLeaf lf, ELeaf a, ELeaf b => leaf_inner q lf a b
   | SProd w p cs, ENode xs, ENode ys =>
       if negb (is2 p) then NotImpl
-      else match cs with
-           | [] => if q_ps_empty_raises q then IndexErr else Ok nzero
-           | _ => bind (collect2 (sp_inner q) cs xs ys) (fun v => Ok (ps_inner_comb w v))
-           end
+      else bind (collect2 (sp_inner q) cs xs ys) (fun v => Ok (ps_inner_comb w v))
   | _, _, _ => ShapeErr
   end.
 
@@ -336,13 +309,9 @@ Fixpoint sp_norm (q : quirks) (s : space) (x : elem) {struct s} : outcome T :=
   match s, x with
   | SLeaf lf, ELeaf a => leaf_norm q lf a
   | SProd w p cs, ENode xs =>
-      if is_nil cs && negb (q_ps_empty_raises q) then Ok nzero
+      if is_nil cs then Ok nzero                  (* len(x) == 0: return 0.0 *)
       else if is2 p && q_ps2_via_inner q then
-        match cs with
-        | [] => if q_ps_empty_raises q then IndexErr else Ok nzero
-        | _ => bind (collect2 (sp_inner q) cs xs xs)
-                 (fun v => Ok (nroot 2 (ps_inner_comb w v)))
-        end
+        bind (collect2 (sp_inner q) cs xs xs) (fun v => Ok (nroot 2 (ps_inner_comb w v)))
       else bind (collect1 (sp_norm q) cs xs) (ps_norm_comb w p)
   | _, _ => ShapeErr
   end.
@@ -358,7 +327,7 @@ Definition sp_dist (q : quirks) (s : space) (x y : elem) : outcome T :=
   match s, x, y with
   | SLeaf lf, ELeaf a, ELeaf b => leaf_dist q lf a b
   | SProd (PWConst c) p cs, ENode xs, ENode ys =>
-      if is_nil cs && negb (q_ps_empty_raises q) then Ok nzero else
+      if is_nil cs then Ok nzero else
       match esub x y with
       | ENode ds => bind (collect1 (sp_norm q) cs ds) (ps_dist_comb_const c p)
       | _ => ShapeErr
@@ -380,8 +349,8 @@ Definition c_abs2 (xr xi : list T) : list T := vadd (vmul xr xr) (vmul xi xi).
    order -- and returns const * sum(inners) resp. dot(inners, w) with real weights. *)
 Definition c_leaf_inner (q : quirks) (lf : leaf) (xr xi yr yi : list T) : outcome (T * T) :=
   match lf with
-  | LTensor _ _ w p => if is2 p then Ok (c_inner_v (t_weight w) xr xi yr yi) else NotImpl
-  | LDiscr _ axes w p =>
+  | LTensor w p => if is2 p then Ok (c_inner_v (t_weight w) xr xi yr yi) else NotImpl
+  | LDiscr axes w p =>
       let tw := d_weight axes w p in
       if negb (is2 p) then NotImpl
       else if unif_weighted q axes tw p then Ok (c_inner_v tw xr xi yr yi)
@@ -402,12 +371,21 @@ Fixpoint csp_inner (q : quirks) (s : space) (xr xi yr yi : elem) {struct s} : ou
   | SLeaf lf, ELeaf ar, ELeaf ai, ELeaf br, ELeaf bi => c_leaf_inner q lf ar ai br bi
   | SProd w p cs, ENode xrs, ENode xis, ENode yrs, ENode yis =>
       if negb (is2 p) then NotImpl
-      else match cs with
-           | [] => if q_ps_empty_raises q then IndexErr else Ok (nzero, nzero)
-           | _ => bind (collect4 (csp_inner q) cs xrs xis yrs yis) (fun zs => Ok (cps_inner_comb w zs))
-           end
+      else bind (collect4 (csp_inner q) cs xrs xis yrs yis) (fun zs => Ok (cps_inner_comb w zs))
   | _, _, _, _, _ => ShapeErr
   end.
+
+(* norm and dist of complex elements: |z| entry-wise on the leaves (np.abs / nrm2 of complex data),
+   then the real code paths: |r z| = r |z| for the non-negative boundary factors, <x,x> = sum w |z|^2 *)
+Fixpoint emod (xr xi : elem) {struct xr} : elem :=
+  match xr, xi with
+  | ELeaf a, ELeaf b => ELeaf (map (nroot 2) (c_abs2 a b))
+  | ENode xs, ENode ys => ENode (zip_with emod xs ys)
+  | _, _ => ENode []
+  end.
+Definition csp_norm (q : quirks) (s : space) (xr xi : elem) : outcome T := sp_norm q s (emod xr xi).
+Definition csp_dist (q : quirks) (s : space) (xr xi yr yi : elem) : outcome T :=
+  let m := emod (esub xr yr) (esub xi yi) in sp_dist q s m (escal nzero m).
 End M.
 
 (* ------------------------------------------------------------------ *)
